@@ -20,7 +20,7 @@ CHECKS = {
          "5/C06"),
  "C08": ("bounded-exhaustive program enumeration vs the reference evaluator M-eval; disagreements attributed to listed findings only through trigger predicates on the model's own execution",
          "Every nest (depth 2 quick / 3 thorough) of try/catch/finally forms, loops, calls and blocks with every leaf action (throws of 4 value kinds, 6 failing built-ins, deep callee throws, a callee that itself returns through try/finally, return, break, continue), including nests whose focus sits inside a finally block while a return is pending, and every sequential pair of nests, run on the real VM and compared with M-eval's block trace and outcome.",
-         "Four open findings (known_findings.json) are attributed by trigger predicate; the trigger-free population must agree exactly. Bounded by nest depth.",
+         "Three open findings (known_findings.json: break/continue out of a try body, return out of a nested try, abrupt exit from a catch that has a finally) are attributed by trigger predicates that fire on exactly those constructs in the model's own execution; the trigger-free population must agree exactly. Bounded by nest depth.",
          "5/C08"),
  "C07": ("bounded-exhaustive program enumeration vs the reference evaluator M-eval (class chain walks, lexical super)",
          "Every class hierarchy of depth 1-3 with per-class choices of method m (absent/plain/super call/super value), n (calls self.m), four constructor forms, probed on instances of the two most derived classes with calls, bound values, arities, unknown members, shadowing fields, type/derives; static methods and Self; local classes; every non-class superclass; construction rules. Run on the real VM and compared with M-eval.",
@@ -31,7 +31,7 @@ CHECKS = {
          "Trusts M-eval's module model. Importing a module again after its body threw is outside the alphabet (X). Bounded: 3 modules besides main.",
          "5/C14"),
  "C17": ("bounded-exhaustive program enumeration vs M-eval (class, text, kind, full trace) + caught==uncaught differential on the implementation + stray-token line enumeration",
-         "Every call chain of depth <=3/4 over 8 link kinds (function, method, static, lambda, constructor, map/reduce callbacks through the library, fiber) with 12 failing statements at the bottom (in place, in a module function, as a module body), one statement per line: the uncaught report's class, message, ErrorKind and every trace entry must equal M-eval's; the caught variant must see the same class. The same after an earlier, completely handled exception (5 shapes) placed in each active frame (chains to depth 2/3). 26 failing statements (incl. host natives of every ErrorKind) are checked caught==uncaught on the implementation itself; a stray token before every statement of a multi-line program must be reported at its own line.",
+         "Every call chain of depth <=3/4 over 8 link kinds (function, method, static, lambda, constructor, map/reduce callbacks through the library, fiber) with 12 failing statements at the bottom (in place, in a module function, as a module body), one statement per line: the uncaught report's class, message, ErrorKind and every trace entry must equal M-eval's; the caught variant must see the same class. The same after an earlier, completely handled exception (6 shapes) placed in each active frame (chains to depth 2/3). 26 failing statements (incl. host natives of every ErrorKind) are checked caught==uncaught on the implementation itself; a stray token before every statement of a multi-line program must be reported at its own line.",
          "Message texts of built-in errors come from the caught==uncaught differential, not from a table. Uncaught exceptions passing through finally blocks are outside C17's alphabet.",
          "5/C17"),
  "C18": ("bounded-exhaustive program enumeration vs M-eval (model sequences; index-based vec iteration)",
@@ -59,15 +59,15 @@ CHECKS = {
          "Exceptions leaving a fiber's outermost frame end the run (fixed by the repository's own script). Which error class wins when a running fiber is re-entered with a wrong argument count is not fixed by the property and is left out.",
          "5/C09"),
  "C15": ("explicit-state breadth-first search over snippet histories with reference M-repl; every transition replayed on a fresh real interpreter",
-         "BFS over histories (length 5/7) of 28 snippets (definitions/uses, compile error, uncaught throws from top level, nested calls, a fiber, a chain of two fibers, try/finally, a half-declared class, a built-in inside a method, after a closure escaped from the failing call frame / fiber; clean try/finally and try/catch probes, probes of the dead fibers and of the escaped closures, a fiber suspended inside try/finally and resumed later, import and module mutation, reset) with canonical model state; each transition is the shortest history to its source state plus the snippet, run on one real Vm; per-snippet output and outcome must equal the model's; no panic; swept objects are quarantined and any touch of freed memory is a violation.",
+         "BFS over histories (length 5/8) of 28 snippets (definitions/uses, compile error, uncaught throws from top level, nested calls, a fiber, a chain of two fibers, try/finally, a half-declared class, a built-in inside a method, after a closure escaped from the failing call frame / fiber; clean try/finally and try/catch probes, probes of the dead fibers and of the escaped closures, a fiber suspended inside try/finally and resumed later, import and module mutation, reset) with canonical model state; each transition is the shortest history to its source state plus the snippet, run on one real Vm; per-snippet output and outcome must equal the model's; no panic; swept objects are quarantined and any touch of freed memory is a violation.",
          "Counters bounded to keep the state space finite.",
          "5/C15"),
  "C04": ("explicit-state reachability over the abstract (pc, operand-stack height) space of every compiled function (M-vm) + trace conformance + limit-sized program enumeration",
-         "For each of ~185k functions compiled from the repository scripts, core.yl and the C05/C06/C07/C08/C18 generator corpora, every abstract state (pc, height) is explored (39M states quick) including exceptional and finally-return edges, with the structural invariants of the property checked in every state and one height per pc; with the instruction-trace hook ~190k concretely executed (function, pc, height) points must lie in the abstract set; for every jump kind a body is sized (operand measured from the emitted code) so that the distance is 65534..65537, and every count limit (locals, captures, parameters, arguments, elements, interpolation parts, constants) is straddled: rejected with a compile error or exactly the expected output.",
-         "One open finding (KF-C04-01, finally entered at two heights) is attributed only when all of a function's issues vanish with exactly that abstract edge removed. Variable identity on every path is decided behaviourally by C05/C06.",
+         "For each of ~185k functions compiled from the repository scripts, core.yl and the C05/C06/C07/C08/C18 generator corpora, every abstract state (pc, height) is explored (14M states quick) including exceptional and finally-return edges, with the structural invariants of the property checked in every state and one height per pc; with the instruction-trace hook ~190k concretely executed (function, pc, height) points must lie in the abstract set; for every jump kind a body is sized (operand measured from the emitted code) so that the distance is 65534..65537, and every count limit (locals, captures, parameters, arguments, elements, interpolation parts, constants) is straddled: rejected with a compile error or exactly the expected output.",
+         "No open finding (KF-C04-01, a finally block entered at two heights, is repaired; its witness is re-run). Variable identity on every path is decided behaviourally by C05/C06.",
          "5/C04"),
  "C01": ("exhaustive enumeration of programs x GC schedules on the real collector (schedule hook; swept objects quarantined so every later touch is reported)",
-         "Every heap-shape program (root kind x holder chain of length <= 2 over 17 holder kinds x 19 referent kinds, 12k programs) and the C05/C06/C07/C08/C18 corpora run under never (comparison), always (collect at every allocation) and, for the small programs, only{i} for every allocation index (all pairs in the thorough tier): no use-after-free event (dereference of a swept object, open captured variable into a swept fiber stack, object swept while borrowed), output identical to the never-collect run, no crash.",
+         "Every heap-shape program (root kind x holder chain of length <= 2 over 23 holder kinds - 17 data-structure edges and 6 kinds of transient interpreter state: a return waiting for a finally block, an exception in flight through a finally block, values in transfer between fibers, operands of an unfinished literal or call - x 20 referent kinds, 27k programs) and the C05/C06/C07/C08/C18 corpora plus the C14 (modules) and C17 (error paths) corpora with their module tables run under never (comparison), always (collect at every allocation) and, for the small programs, only{i} for every allocation index (all pairs in the thorough tier): no use-after-free event (dereference of a swept object, open captured variable into a swept fiber stack, object swept while borrowed), output identical to the never-collect run, no crash.",
          "`always` dominates every other schedule under the quarantine (argued in DESIGN.md and validated by the only{i} runs: 0 counterexamples). One open finding (KF-C01-01) attributed only when the first event is the dangling captured variable of an abandoned fiber.",
          "5/C01"),
  "C02": ("exhaustive sweeps of built-ins x receivers x adversarial argument tuples, operator constructs x value kinds, and a resource grid, on the real VM in its checked configuration",
